@@ -765,7 +765,13 @@ struct Machine {
 }
 
 fn setup(sc: &Sc, ctx: &mut Ctx, hooks: bool) -> Option<Machine> {
-    install_ax_rng(sc.xmm_seed);
+    setup_masked(sc, ctx, hooks, None, sc.xmm_seed)
+}
+
+/// `only`: write explicitly just these registers (GPR mask, XMM mask); every other register keeps
+/// what the constructor drew from the RNG seam stream `rng_seed`
+fn setup_masked(sc: &Sc, ctx: &mut Ctx, hooks: bool, only: Option<([bool; 16], [bool; 16])>, rng_seed: u64) -> Option<Machine> {
+    install_ax_rng(rng_seed);
     let mut code = from_hex(&sc.bytes);
     let real_len = code.len();
     code.extend_from_slice(&[0x90; 24]);
@@ -785,11 +791,16 @@ fn setup(sc: &Sc, ctx: &mut Ctx, hooks: bool) -> Option<Machine> {
             let _ = ax.mem_write_bytes(*a, &v.to_le_bytes()[..(*n as usize).min(8)]);
         }
         for (i, v) in sc.gpr.iter().enumerate().take(16) {
-            ax.reg_write_64(GPR64[i], *v).map_err(|e| e.to_string())?;
+            if only.map(|o| o.0[i]).unwrap_or(true) {
+                ax.reg_write_64(GPR64[i], *v).map_err(|e| e.to_string())?;
+            }
         }
         let mut xr = Rng::new(sc.xmm_seed);
-        for x in XMM.iter() {
-            ax.reg_write_128(*x, ((xr.next() as u128) << 64) | xr.next() as u128).map_err(|e| e.to_string())?;
+        for (i, x) in XMM.iter().enumerate() {
+            let v = ((xr.next() as u128) << 64) | xr.next() as u128;
+            if only.map(|o| o.1[i]).unwrap_or(true) {
+                ax.reg_write_128(*x, v).map_err(|e| e.to_string())?;
+            }
         }
         ax.verif_set_rflags(sc.flags);
         ax.write_fs(sc.fs);
@@ -1168,7 +1179,157 @@ fn run_c19(sc: &Sc, ctx: &mut Ctx) {
     ctx.log_u64(observe(&m.ax).digest());
 }
 
+/// C20, instruction part: the same instruction on two machines that differ only in what the
+/// constructor left in the registers the instruction does not mention.
+fn run_c20(sc: &Sc, ctx: &mut Ctx) {
+    if sc.fault == "inapplicable" {
+        ctx.event("cell:inapplicable", "");
+        return;
+    }
+    let bytes = from_hex(&sc.bytes);
+    let ins = Decoder::with_ip(64, &bytes, CODE, DecoderOptions::NONE).decode();
+    let mut fac = InstructionInfoFactory::new();
+    let info = fac.info(&ins);
+    let mut g = [false; 16];
+    let mut x = [false; 16];
+    let mut mark = |r: Register| {
+        if r == Register::None {
+            return;
+        }
+        if r.is_xmm() {
+            x[r.number() % 16] = true;
+        } else if let Some(i) = reg_index(r) {
+            g[i] = true;
+        }
+    };
+    for u in info.used_registers() {
+        mark(u.register());
+    }
+    for m in info.used_memory() {
+        mark(m.base());
+        mark(m.index());
+    }
+    for k in 0..ins.op_count() {
+        if ins.op_kind(k) == OpKind::Register {
+            mark(ins.op_register(k));
+        }
+    }
+    g[6] = true; // RSP: the harness always sets up a stack
+    ctx.nontrivial = true;
+    set_dispatch(Some(Box::new(|_id, _ax, _m| Ok(HookResult::Unhandled))));
+    let mut res: Vec<(String, Obs, Obs)> = Vec::new();
+    for seed in [sc.xmm_seed ^ 0x1111, sc.xmm_seed ^ 0x2222_2222] {
+        let mut m = match setup_masked(sc, ctx, true, Some((g, x)), seed) {
+            Some(m) => m,
+            None => {
+                set_dispatch(None);
+                return;
+            }
+        };
+        let init = observe(&m.ax);
+        let out = do_step(&mut m.ax);
+        ctx.guest_steps += 1;
+        let oc = match &out {
+            StepOut::Ok(b) => format!("ok:{b}"),
+            StepOut::Err(e) => format!("err:{e}"),
+            StepOut::Panic(p) => format!("panic:{}", p.class()),
+        };
+        res.push((oc, init, observe(&m.ax)));
+    }
+    set_dispatch(None);
+    ctx.fault("rng_stream_varied");
+    let mn = format!("{:?}", ins.mnemonic());
+    ctx.event(&format!("c20:{}:{}:{}", sc.code_name, sc.shape, if res[0].0.starts_with("ok") { "ok" } else if res[0].0.starts_with("err") { "err" } else { "panic" }), "");
+    let (a, b) = (&res[0], &res[1]);
+    if a.0.starts_with("panic") || b.0.starts_with("panic") {
+        return; // crash sites are C06 / C19 findings
+    }
+    if a.0 != b.0 {
+        ctx.dev("C20", format!("C20|insn|result_or_error_text|{mn}"), format!("{} [{}] {}: results differ between two machines that differ only in unwritten registers:\n--- {}\n+++ {}", sc.code_name, sc.shape, ins, a.0, b.0).chars().take(900).collect());
+        return;
+    }
+    let (oa, ob) = (&a.2, &b.2);
+    for i in 0..16 {
+        if g[i] {
+            if oa.gpr[i] != ob.gpr[i] {
+                ctx.dev("C20", format!("C20|insn|reg|{mn}"), format!("{} [{}] {}: {} differs after the step ({:#x} vs {:#x})", sc.code_name, sc.shape, ins, GPR64_NAMES[i], oa.gpr[i], ob.gpr[i]));
+                return;
+            }
+        } else {
+            for (o, init) in [(oa, &a.1), (ob, &b.1)] {
+                if o.gpr[i] != init.gpr[i] {
+                    ctx.dev("C20", format!("C20|insn|stray_write|reg|{mn}"), format!("{} [{}] {}: {} is not mentioned by the instruction but changed", sc.code_name, sc.shape, ins, GPR64_NAMES[i]));
+                    return;
+                }
+            }
+        }
+    }
+    for i in 0..16 {
+        if x[i] {
+            if oa.xmm[i] != ob.xmm[i] {
+                ctx.dev("C20", format!("C20|insn|xmm|{mn}"), format!("{} [{}] {}: XMM{i} differs after the step", sc.code_name, sc.shape, ins));
+                return;
+            }
+        } else {
+            for (o, init) in [(oa, &a.1), (ob, &b.1)] {
+                if o.xmm[i] != init.xmm[i] {
+                    ctx.dev("C20", format!("C20|insn|stray_write|xmm|{mn}"), format!("{} [{}] {}: XMM{i} is not mentioned by the instruction but changed", sc.code_name, sc.shape, ins));
+                    return;
+                }
+            }
+        }
+    }
+    let comp = if oa.rip != ob.rip {
+        Some("rip")
+    } else if oa.rflags != ob.rflags {
+        Some("flags")
+    } else if oa.areas != ob.areas {
+        Some("mem")
+    } else if oa.executed != ob.executed || oa.finished != ob.finished {
+        Some("count")
+    } else if oa.trace != ob.trace || oa.call_stack != ob.call_stack {
+        Some("trace")
+    } else {
+        None
+    };
+    if let Some(c) = comp {
+        ctx.dev("C20", format!("C20|insn|{c}|{mn}"), format!("{} [{}] {}: {c} differs between two machines that differ only in unwritten registers", sc.code_name, sc.shape, ins));
+    }
+    ctx.log_u64(oa.digest());
+}
+
+fn cells_c20() -> &'static Vec<(usize, Option<usize>)> {
+    static C: OnceLock<Vec<(usize, Option<usize>)>> = OnceLock::new();
+    C.get_or_init(|| {
+        let mut v: Vec<(usize, Option<usize>)> = Vec::new();
+        for (ci, sh, f) in cells().iter() {
+            if *f == 0 {
+                v.push((*ci, *sh));
+            }
+        }
+        v
+    })
+}
+
+fn gen_c20(seed: u64, idx: u64) -> Sc {
+    let cs = cells_c20();
+    let (ci, shape) = cs[(idx as usize) % cs.len()];
+    let k = idx / cs.len() as u64;
+    let mut r = Rng::new(mix(seed, "C20i", idx));
+    match gen_insn("c20", ci, shape, "none", &mut r, k) {
+        Some(sc) => sc,
+        None => {
+            let mut t = trivial("c20");
+            t.fault = "inapplicable".into();
+            t
+        }
+    }
+}
+
 pub fn run(_prop: &str, sc: &Sc, ctx: &mut Ctx) {
+    if sc.mode == "c20" {
+        return run_c20(sc, ctx);
+    }
     ctx.probes.entry("excluded_crashing_forms".to_string()).or_insert(0);
     ctx.probes.entry("access_not_performed".to_string()).or_insert(0);
     match sc.mode.as_str() {
@@ -1185,6 +1346,7 @@ impl Engine for E5Engine {
         match prop {
             "C06" => cells().len() as u64 * if thorough { SAMPLES_THOROUGH } else { SAMPLES_QUICK },
             "C09" => cells_c09().len() as u64 * if thorough { 40 } else { 5 },
+            "C20" => cells_c20().len() as u64 * if thorough { 64 } else { 8 },
             _ => {
                 if thorough {
                     20_000_000
@@ -1198,6 +1360,7 @@ impl Engine for E5Engine {
         let sc = match prop {
             "C06" => gen_c06(seed, idx, thorough),
             "C09" => gen_c09(seed, idx),
+            "C20" => gen_c20(seed, idx),
             _ => gen_c19(seed, idx, thorough),
         };
         serde_json::to_value(sc).unwrap()
@@ -1271,6 +1434,7 @@ impl Engine for E5Engine {
     fn rule(&self, prop: &str) -> String {
         match prop {
             "C06" => format!("enumerated in every run independent of the seed: {} cells = catalogue form (315 implemented Codes, frozen in data/implemented_codes.txt; forms without a 64-bit encoding are counted as inapplicable) x operand shape (register form; 16 memory shapes incl. RSP/RBP/R12/R13 bases, all scales, RIP-relative, absolute, moffs, 32-bit address size, FS/GS) x fault kind (none, unmapped operand, operand straddling the area end, read permission revoked, write permission revoked, misaligned 128-bit operand); per cell {SAMPLES_QUICK} (quick) / {SAMPLES_THOROUGH} (thorough) samples whose immediates walk a boundary list before random values; divide errors are decided per sample with 128-bit arithmetic on the actual state; oracle: step returns Err iff a CPU faults (operand access facts from iced, fault injected by construction); distinct = distinct (form, shape, fault, reason, outcome)", cells().len()),
+            "C20" => format!("instruction part: {} cells = catalogue form x operand shape, 8 (quick) / 64 (thorough) samples each; only the registers the instruction mentions (iced used_registers/used_memory) are written explicitly, every other GPR/XMM keeps what the constructor drew from two different RNG-seam streams; result, error text, mentioned registers, flags, memory must agree and unmentioned registers must keep their own initial value", cells_c20().len()),
             "C09" => format!("instruction part: {} cells = catalogue form x area (operand / stack / code) x all 8 permission masks, mem_prot applied right before the step", cells_c09().len()),
             _ => "sampled: uniform byte strings of length 1-15; prefix/REX/opcode-structured strings built from catalogue encodings with random tails; valid encodings of every catalogue form in every shape the encoder can produce (32-bit address size, RIP-relative, moffs, AH-DH, special bases, segment overrides, shift-by-1 in the imm8 encoding); E2 programs run to a random point, 1-3 bits of the code flipped through mem_prot+mem_write_bytes, then stepped on; states with boundary-biased registers, pointer registers aimed into small areas under random masks, random flags, segment bases; oracle: step returns Ok or Err under catch_unwind in a supervised worker process - no panic, abort, hang; undecodable/unsupported bytes must give Err; distinct = distinct (generator, mnemonic, outcome) sequence".into(),
         }
